@@ -454,3 +454,6 @@ def finish(tier, merged):
             merged["counters"]["branch_statement_not_in_source"] += 1
         elif any(ln in covered for ln in found[text]):
             merged["counters"][counter] += 1
+
+
+RULE += (' Coordinates are also given through one list object refilled in place; for the Histogram element two reset() rounds repeat the fills and must reproduce the cells of the first round.')
